@@ -63,6 +63,31 @@ def eval_graph(c, sub):
             except Exception as ex:
                 viols.append(Violation(PROP, 'window', {'kind': 'invalid-window-wrong-exception', 'exc': type(ex).__name__, 'cls': c['cls']},
                                        case([repr(u), None, s, e]), {'graph': graphs.describe(c, sub)}))
+    # query -> grow the same object -> query again: the DAG must be that of the current graph
+    if 2 <= len(sub):
+        import dynetx as dn
+        H = getattr(dn, c['cls'])()
+        Pp = set()
+        chosen = sorted((atoms[i] for i in sub), key=lambda a: (a[2], a[0], a[1]))
+        for step, (i, j, t) in enumerate(chosen):
+            H.add_interaction(nodes[i], nodes[j], T[t])
+            Pp.add((nodes[i], nodes[j], T[t]))
+            if not directed:
+                Pp.add((nodes[j], nodes[i], T[t]))
+            pids = sorted(set(x[2] for x in Pp))
+            for u in list(H.nodes()):
+                cnt['queries'] += 1
+                cnt['incremental_queries'] += 1
+                try:
+                    bad = po.check_dag(Pp, directed, pids, u, None, None, None, al.temporal_dag(H, u))
+                except Exception as ex:
+                    bad = ['raises-' + type(ex).__name__]
+                if bad:
+                    viols.append(Violation(PROP, 'incremental', {'kind': 'dag-does-not-track-the-graph', 'conditions': bad, 'cls': c['cls']},
+                                           case(['incremental', step, repr(u)]),
+                                           {'graph so far': ['add_interaction(%r, %r, t=%r)' % (nodes[a], nodes[b], T[tt]) for (a, b, tt) in chosen[:step + 1]],
+                                            'failed': bad}))
+                    break
     if len(ids) >= 2 and len(sub) >= 2:
         cnt['nontrivial_graphs'] += 1
     return viols[:6], cnt
